@@ -1,7 +1,9 @@
 //! C36: `find_contours` and the drawing primitives of rten-imageproc.
 //!
 //! Requests (see lean/RtenVerif/Driver/C36.lean): `fc`, `line`, `fill`, `stroke` are compared
-//! with the Lean model; `# wline`, `# poly`, `# filliter` lines only go through the oracle.
+//! with the Lean model, and so are `fillit` (exact pixel sequence of `Polygon::fill_iter`), `wline`
+//! (wide `draw_line`, the request carries the rotated rect's integer corners) and `poly`
+//! (`draw_polygon`, width 1).
 //!
 //! Oracle (independent of the model):
 //!  * contours: every point inside the image, a foreground pixel, with a background pixel or
@@ -15,7 +17,7 @@
 use hcommon::{Args, Out, Rng};
 use rten_imageproc::{
     draw_line, draw_polygon, fill_rect, find_contours, stroke_rect, Line, Point, Polygon, Rect,
-    RetrievalMode,
+    RetrievalMode, RotatedRect, Vec2,
 };
 use rten_tensor::prelude::*;
 use rten_tensor::NdTensor;
@@ -228,17 +230,44 @@ fn stroke_case(out: &mut Out, h: usize, w: usize, r: (i64, i64, i64, i64), sw: u
     finish_draw(out, &req, "stroke", &written, &panic, margin, r, None, (r.2 - r.0) > 2 && (r.3 - r.1) > 2);
 }
 
+/// The four integer corners of the rotated rect that wide `draw_line` fills, computed with the
+/// same public operations as the code (`f32`, truncating casts).
+fn wide_corners(line: Line, width: u32) -> Vec<(i64, i64)> {
+    let line = line.to_f32();
+    let line_vec = Vec2::from_xy(line.width(), line.height());
+    let rrect = RotatedRect::new(line.center(), line_vec.perpendicular(), line_vec.length(), width as f32);
+    rrect.corners().iter().map(|c| ((c.y as i32) as i64, (c.x as i32) as i64)).collect()
+}
+
 fn wide_line_case(out: &mut Out, h: usize, w: usize, p0: (i64, i64), p1: (i64, i64), width: u32) {
-    let req = format!("# wline {h} {w} {} {} {} {} {width}", p0.0, p0.1, p1.0, p1.1);
     let line = Line::from_endpoints(Point::from_yx(p0.0 as i32, p0.1 as i32), Point::from_yx(p1.0 as i32, p1.1 as i32));
+    let corners = wide_corners(line, width);
+    // the request carries the corners; the original line is a trailing comment for replay
+    let req = format!("wline {h} {w} {} #line={},{};{},{};width={width}", fmt_pts(&corners), p0.0, p0.1, p1.0, p1.1);
     let (written, panic, margin) = with_canvas(h, w, |v| draw_line(v, line, 1u8, width));
-    let pad = width as i64 + 2;
-    let bounds = (p0.0.min(p1.0) - pad, p0.1.min(p1.1) - pad, p0.0.max(p1.0) + pad + 1, p0.1.max(p1.1) + pad + 1);
-    finish_draw(out, &req, "wline", &written, &panic, margin, bounds, None, true);
+    // shape's bounds: the bounding rect of the rotated rect's integer corners
+    let bounds = (
+        corners.iter().map(|c| c.0).min().unwrap(),
+        corners.iter().map(|c| c.1).min().unwrap(),
+        corners.iter().map(|c| c.0).max().unwrap(),
+        corners.iter().map(|c| c.1).max().unwrap(),
+    );
+    // the corners themselves must be within width/2 + 1 (truncation) of the segment's bounding box
+    let pad = (width as i64 + 1) / 2 + 1;
+    let extra = if corners.iter().any(|c| {
+        c.0 < p0.0.min(p1.0) - pad || c.0 > p0.0.max(p1.0) + pad || c.1 < p0.1.min(p1.1) - pad || c.1 > p0.1.max(p1.1) + pad
+    }) && p0 != p1
+    {
+        Some(format!("rotated-rect corner farther than {pad} from the segment's bounding box"))
+    } else {
+        None
+    };
+    out.bucket(if p0 == p1 { "wline_degenerate_point" } else { "wline_proper" });
+    finish_draw(out, &req, "wline", &written, &panic, margin, bounds, extra, true);
 }
 
 fn poly_case(out: &mut Out, h: usize, w: usize, pts: &[(i64, i64)]) {
-    let req = format!("# poly {h} {w} {}", fmt_pts(pts));
+    let req = format!("poly {h} {w} {}", fmt_pts(pts));
     let poly: Vec<Point> = pts.iter().map(|p| Point::from_yx(p.0 as i32, p.1 as i32)).collect();
     let (written, panic, margin) = with_canvas(h, w, |v| draw_polygon(v, &poly, 1u8, 1));
     let cl = |v: i64, n: usize| v.clamp(0, (n as i64 - 1).max(0));
@@ -253,26 +282,15 @@ fn poly_case(out: &mut Out, h: usize, w: usize, pts: &[(i64, i64)]) {
     finish_draw(out, &req, "poly", &written, &panic, margin, bounds, None, pts.len() >= 3);
 }
 
-/// `allow_slow`: a polygon of zero width with a non-horizontal edge (all points on one vertical
-/// line) makes `FillIter::next` walk the cursor through the whole `i32` range once per scanline
-/// (`cursor.x` never equals `bounds.right()`): ~2^32 iterations per scanline in release, an
-/// arithmetic-overflow panic with overflow checks. No pixel is yielded, so this is not a
-/// violation of the property, but it would dominate the run time; such polygons are skipped
-/// unless `allow_slow` (one fixed case in the thorough tier, timed).
-fn filliter_case(out: &mut Out, pts: &[(i64, i64)], allow_slow: bool) {
-    let req = format!("# filliter {}", fmt_pts(pts));
-    let zero_width = !pts.is_empty()
-        && pts.iter().all(|p| p.1 == pts[0].1)
-        && pts.iter().any(|p| p.0 != pts[0].0);
-    if zero_width && !allow_slow {
-        out.bucket("filliter_zero_width_skipped");
-        return;
-    }
-    let t0 = std::time::Instant::now();
+/// `Polygon::fill_iter()`: the exact sequence of yielded pixels is compared with the model; the
+/// oracle requires every pixel inside the half-open bounding rect `[min y, max y) x [min x, max x)`,
+/// no pixel twice, and termination within the rect's area.
+fn filliter_case(out: &mut Out, pts: &[(i64, i64)], gen: &str) {
+    let req = format!("fillit {}", fmt_pts(pts));
     let poly: Vec<Point> = pts.iter().map(|p| Point::from_yx(p.0 as i32, p.1 as i32)).collect();
     let (t, b) = (pts.iter().map(|p| p.0).min().unwrap_or(0), pts.iter().map(|p| p.0).max().unwrap_or(0));
     let (l, r) = (pts.iter().map(|p| p.1).min().unwrap_or(0), pts.iter().map(|p| p.1).max().unwrap_or(0));
-    let limit = ((b - t + 2) * (r - l + 2)) as usize + 8;
+    let limit = ((b - t) * (r - l)) as usize;
     let res = hcommon::catch(|| {
         Polygon::new(&poly[..]).fill_iter().take(limit + 1).map(|p| (p.y as i64, p.x as i64)).collect::<Vec<_>>()
     });
@@ -280,9 +298,9 @@ fn filliter_case(out: &mut Out, pts: &[(i64, i64)], allow_slow: bool) {
         Ok(ps) => {
             let mut fail = None;
             if ps.len() > limit {
-                fail = Some(format!("yields more than {limit} points (bounding rect area exceeded)"));
-            } else if let Some(p) = ps.iter().find(|p| p.0 < t || p.0 > b || p.1 < l || p.1 > r) {
-                fail = Some(format!("yields {},{} outside the bounding rect [{t},{b}]x[{l},{r}]", p.0, p.1));
+                fail = Some(format!("yields more than {limit} pixels (area of the bounding rect)"));
+            } else if let Some(p) = ps.iter().find(|p| p.0 < t || p.0 >= b || p.1 < l || p.1 >= r) {
+                fail = Some(format!("yields {},{} outside the bounding rect [{t},{b})x[{l},{r})", p.0, p.1));
             } else {
                 let mut s = ps.clone();
                 s.sort();
@@ -292,13 +310,11 @@ fn filliter_case(out: &mut Out, pts: &[(i64, i64)], allow_slow: bool) {
                 }
             }
             out.bucket(if ps.is_empty() { "filliter_empty" } else { "filliter_nonempty" });
-            if zero_width {
-                out.note(&format!("fill_iter on the zero-width polygon {} took {:.1} s and yielded {} points", fmt_pts(pts), t0.elapsed().as_secs_f64(), ps.len()));
-            }
-            (format!("n={}", ps.len()), fail)
+            (format!("{} done=1", fmt_pts(&ps[..ps.len().min(limit)])), fail)
         }
         Err(m) => (format!("panic {m}"), Some(format!("fill_iter panicked: {m}"))),
     };
+    out.bucket(&format!("filliter_gen_{gen}"));
     out.case(&req, &ans, fail.as_deref(), pts.len() >= 3);
 }
 
@@ -445,14 +461,41 @@ fn run(args: &Args) {
                 poly_case(&mut out, h, w, &pts);
             }
             _ => {
-                let n = rng.usize_below(7);
-                let pts: Vec<(i64, i64)> = (0..n).map(|_| (rng.range_i64(-6, 12), rng.range_i64(-6, 12))).collect();
-                filliter_case(&mut out, &pts, false);
+                let kind = rng.below(6);
+                let (pts, gen): (Vec<(i64, i64)>, &str) = match kind {
+                    0 => {
+                        // zero-width / zero-height polygons (all x or all y equal)
+                        let n = 1 + rng.usize_below(5);
+                        let c = rng.range_i64(-3, 6);
+                        let vertical = rng.chance(1, 2);
+                        ((0..n).map(|_| { let v = rng.range_i64(-2, 4); if vertical { (v, c) } else { (c, v) } }).collect(), "degenerate")
+                    }
+                    1 => {
+                        // rectangles and triangles with a few collinear extra vertices
+                        let (t, l) = (rng.range_i64(-4, 4), rng.range_i64(-4, 4));
+                        let (hh, ww) = (rng.range_i64(0, 7), rng.range_i64(0, 7));
+                        let mut v = vec![(t, l), (t, l + ww), (t + hh, l + ww), (t + hh, l)];
+                        if rng.chance(1, 2) { v.remove(rng.usize_below(4)); }
+                        if rng.chance(1, 3) { v.reverse(); }
+                        (v, "rect_tri")
+                    }
+                    2 => {
+                        // far from the origin, negative coordinates
+                        let n = 3 + rng.usize_below(3);
+                        let (oy, ox) = (*rng.pick(&[-1000i64, -50, 700, 100_000]), *rng.pick(&[-100_000i64, -20, 300]));
+                        ((0..n).map(|_| (oy + rng.range_i64(0, 9), ox + rng.range_i64(0, 9))).collect(), "far")
+                    }
+                    _ => {
+                        let n = rng.usize_below(7);
+                        ((0..n).map(|_| (rng.range_i64(-6, 12), rng.range_i64(-6, 12))).collect(), "random")
+                    }
+                };
+                filliter_case(&mut out, &pts, gen);
             }
         }
     }
-    if args.thorough {
-        filliter_case(&mut out, &[(0, 0), (1, 0)], true);
+    for pts in [vec![(0i64, 0i64), (1, 0), (2, 0)], vec![(0, 0), (1, 0)], vec![(0, 0), (0, 3)], vec![(2, 2)], vec![]] {
+        filliter_case(&mut out, &pts, "fixed_degenerate");
     }
     out.note("drawing calls run on a window of a larger zeroed buffer (margin 3) so that a write outside the image is observable");
     out.finish("model answer (contour lists; written-pixel sets + panic flag for draw_line width 1, fill_rect, stroke_rect) must equal the implementation's; oracle: contour points in-image, foreground, adjacent to background/edge, every component has an outer contour (List mode); drawing never touches the margin and stays inside the shape's bounds");
